@@ -747,3 +747,32 @@ package exec
 //@   ensures  fresh-readers: fresh(multiOf(rc)) || len(r.tasks) == 0
 //@   modifies nothing
 //@   loop 1 invariant len(readers) == len(r.tasks) && fresh(readers) && forall(j, 0, range_idx, readerTask(readers[j]) == r.tasks[j] && readerPartition(readers[j]) == 0)
+
+// ---- C06: the shared per-partition combiners are handed back on every exit ----
+
+// Each machine-level combiner lives in a one-slot channel; a task takes it out, combines into it (user code) and
+// puts it back. Whatever happens — an error, or a panic of the user's combine function — every combiner this call
+// took or made has been put back or discarded when the call ends: nobody waits for it forever.
+//@ func exec.(*worker).runCombine (ctx, task, taskStats, in) (err)
+//@   requires w != nil && task != nil && in != nil && taskStats != nil && defaultChunksize != nil
+//@   may_panic
+//@   flag trust_nil_safety
+//@   flag chan_tokens heldCombiners:*exec.combiner
+//@   flag abstract_calls exec.makeCombiningFrame, frame.Make, frame.Frame.Slice
+//@   flag abstract_total exec.(*combiningFrame).Compact, exec.(*combiningFrame).Len, exec.(*combiningFrame).Cap
+//@   always_ensures shared-combiners-handed-back: heldCombiners == old(heldCombiners)
+//@   always_ensures registry-kept: implies(old(regOK()), regOK())
+//@   modifies unknown
+//@   preserves lastDoTask, lastTaskOut, taskDoCalls, Task.Combiner
+//@   loop 1 invariant tokens: heldCombiners == old(heldCombiners)
+//@   loop 1 invariant registry: implies(old(regOK()), regOK())
+//@   loop 2 invariant tokens: heldCombiners == old(heldCombiners)
+//@   loop 2 invariant registry: implies(old(regOK()), regOK())
+//@   loop 3 invariant tokens: heldCombiners == old(heldCombiners)
+//@   loop 3 invariant registry: implies(old(regOK()), regOK())
+//@   loop 4 invariant tokens: heldCombiners == old(heldCombiners)
+//@   loop 4 invariant registry: implies(old(regOK()), regOK())
+//@   loop 5 invariant tokens: heldCombiners == old(heldCombiners)
+//@   loop 5 invariant registry: implies(old(regOK()), regOK())
+//@   loop 6 invariant tokens: heldCombiners == old(heldCombiners)
+//@   loop 6 invariant registry: implies(old(regOK()), regOK())
